@@ -32,6 +32,7 @@ static hcase_t* cur;
 static fiber_t* target;
 static volatile int handle_given_up;   /* harness-side: a join/tryjoin/detach returned SUCCESS */
 static int mode_unguarded;
+static void* target_node;               /* the target's mpsc node (freed by fiber_destroy before the fiber itself) */
 
 #define LOC_RECLAIM 600
 
@@ -50,6 +51,7 @@ void h_join_free(void* p) {
     target->scratch = (void*)0x5a5a5a5a5a5a5a5aull;
     return;
   }
+  if (p && p == target_node) rt_event(961, K_AUX, 1000);   /* monitor-only: the target's queue node is released */
   free(p);
 }
 
@@ -112,6 +114,7 @@ static void h_run_case(hcase_t* c) {
   int n = c->nthreads;
   t1_setup(n);
   target = t1_fiber_of(0);
+  target_node = target ? (void*)target->mpsc_fifo_node : NULL;
   for (int t = 0; t < n; t++) {
     fiber_t* f = t1_fiber_of(t);
     rt_reg((void*)&f->state, 4, 200 + t, 4);
